@@ -46,11 +46,49 @@ contract(M, 'dfa_to_gnfa', {'D': 'DFA'}, returns='GNFA', requires=['dfa_wf(D)'],
                   _GL % (_LBL % 'result.delta', _EDGE % 'True'),
                   'relookup(result.delta, (result.q_start, D.q0)) == One()',
                   'all(implies(x in D.F, relookup(result.delta, (x, result.q_accept)) == One()) for x in atoms())',
-                  'all(implies((x, y) in result.delta, (x == result.q_start and y == D.q0) or (x in D.F and y == result.q_accept) or (x in D.Q and y in D.Q)) for x in atoms() for y in atoms())'],
+                  'all(implies((x, y) in result.delta, (x == result.q_start and y == D.q0) or (x in D.F and y == result.q_accept) or (x in D.Q and y in D.Q)) for x in atoms() for y in atoms())',
+                  'gnfa_of_dfa(D, glabels(result), result.Q, result.q_start, result.q_accept)',
+                  # hence: the words leading from the start state to the accept state are exactly the words D accepts (lemma gnfa-of-dfa-lang)
+                  'all(gacc(glabels(result), result.Q, result.q_accept, result.q_start, w) == (over(D.Sigma, w) and dfa_accepts(D, w)) for w in allwords())',
+                  'result.q_start in result.Q', 'result.q_accept in result.Q',
+                  'all(lab(glabels(result), result.q_accept, y) == lzero() for y in atoms())', 'all(lab(glabels(result), x, result.q_start) == lzero() for x in atoms())'],
+         asserts=['all(implies(not ((x == result.q_start and y == D.q0) or (x in D.F and y == result.q_accept) or (x in D.Q and y in D.Q)), lab_re(glabels(result), x, y) == Zero()) for x in atoms() for y in atoms())',
+                  'lab_re(glabels(result), result.q_start, D.q0) == One()', 'all(implies(x in D.F, lab_re(glabels(result), x, result.q_accept) == One()) for x in atoms())',
+                  'gnfa_of_dfa(D, glabels(result), result.Q, result.q_start, result.q_accept)'],
          types={'Q1': 'Set[State]', 'delta1': 'Map[(State,State),Regexp,default=zero]'},
          loops={1: {'ghost': 'doneF', 'invariant': _GFIX + [_GK % ('x in doneF', 'False'), 'all(implies(x in doneF, delta1[(x, q_accept)] == One()) for x in atoms())']},
                 2: {'ghost': 'doneK', 'invariant': _GFIX + _GLANG + [_GK % ('True', '(x, a) in doneK'), 'all(implies(x in D.F, delta1[(x, q_accept)] == One()) for x in atoms())',
                                                           _GL % (_LBL % 'delta1', _EDGE % '(x, a) in doneK')]}},
-         theories=['word', 'dfa', 'naming', 'regexp'], props=['C06', 'C19'], symbol_is_regexp=True,
-         note='exact labels of the generalised NFA; the state elimination gnfa_minimize and the composition dfa_to_regexp are covered by the bounded stand-in. '
-              'Naming assumption N5: generated start / accept names differ')
+         theories=['word', 'wordx', 'dfa', 'dfax', 'naming', 'regexp', 'gnfa', 'gnfadfa'], props=['C06', 'C19'], symbol_is_regexp=True,
+         note='exact labels of the generalised NFA, and (lemma gnfa-of-dfa-lang) its language is that of D. Naming assumption N5: generated start / accept names differ')
+
+# ---------------------------------------------------------------------------------------------- C06: state elimination on the generalised NFA
+_GWF = ['G.q_start in G.Q', 'G.q_accept in G.Q', 'G.q_start != G.q_accept',
+        'all(lab(glabels(G), G.q_accept, y) == lzero() for y in atoms())', 'all(lab(glabels(G), x, G.q_start) == lzero() for x in atoms())']
+_GFRAME = ['G.q_start == old(G.q_start)', 'G.q_accept == old(G.q_accept)', 'G.Sigma == old(G.Sigma)', 'G.epsilon == old(G.epsilon)',
+           'q_start == G.q_start', 'q_accept == G.q_accept']
+_GLANGSAME = 'all(gacc(glabels(G), G.Q, G.q_accept, G.q_start, w) == gacc(old(glabels(G)), old(G.Q), G.q_accept, G.q_start, w) for w in allwords())'
+def _RIPF(i, j): return 'lplus(lcat(lab(L0, %s, q_rip), lcat(lstar(lab(L0, q_rip, q_rip)), lab(L0, q_rip, %s))), lab(L0, %s, %s))' % (i, j, i, j)
+def _DONE(proc):
+    return ['all(implies(%s and x in G.Q and x != q_accept and y in G.Q and y != q_start, lab(glabels(G), x, y) == %s) for x in atoms() for y in atoms())' % (proc, _RIPF('x', 'y')),
+            'all(implies(not (%s and x in G.Q and x != q_accept and y in G.Q and y != q_start), lab_re(glabels(G), x, y) == lab_re(L0, x, y)) for x in atoms() for y in atoms())' % proc]
+_INNER = _GFRAME + ['q_rip not in G.Q', 'q_rip != q_start', 'q_rip != q_accept', 'q_start in G.Q', 'q_accept in G.Q', 'q_start != q_accept', 'R2 == lab_re(L0, q_rip, q_rip)',
+                    'G.Q == Q1']
+contract(M, 'gnfa_minimize', {'G': 'GNFA'}, returns='None', modifies=['G'], requires=_GWF,
+         ensures=['all(mem(w, L(relookup(G.delta, (G.q_start, G.q_accept)))) == gacc(old(glabels(G)), old(G.Q), G.q_accept, G.q_start, w) for w in allwords())',
+                  'G.q_start == old(G.q_start)', 'G.q_accept == old(G.q_accept)'],
+         loops={1: {'ghost': 'doneR', 'invariant': _GFRAME + _GWF + ['all((x in G.Q) == (x in old(G.Q) and x not in doneR) for x in atoms())', _GLANGSAME],
+                    'after': ['all((x in G.Q) == (x == q_start or x == q_accept) for x in atoms())']},
+                2: {'ghost': 'doneI', 'entry_snapshot': {'L0': 'glabels(G)', 'Q1': 'G.Q'},
+                    'invariant': _INNER + _DONE('x in doneI'),
+                    'after': ['rip(L0, glabels(G), Q1 | {q_rip}, G.Q, q_rip, q_start, q_accept)']},
+                3: {'ghost': 'doneJ', 'invariant': _INNER + ['q_i in G.Q', 'q_i != q_accept', 'R1 == lab_re(L0, q_i, q_rip)'] + _DONE('(x in doneI or (x == q_i and y in doneJ))')}},
+         theories=['word', 'wordx', 'regexp', 'gnfa'], props=['C06'], symbol_is_regexp=True,
+         note='state elimination in every order: after ripping a state the label between two remaining states denotes L(i,r) L(r,r)* L(r,j) + L(i,j) (regexp_simplify preserves the language), '
+              'which leaves the words leading from the start state to the accept state unchanged (lemma rip-sim, two least-fixpoint inductions and an induction on the star); '
+              'with two states left the language is that of the remaining label (lemma gnfa-two-state)')
+
+contract(M, 'dfa_to_regexp', {'D': 'DFA'}, returns='Regexp', requires=['dfa_wf(D)'],
+         ensures=['all(mem(w, L(result)) == (over(D.Sigma, w) and dfa_accepts(D, w)) for w in allwords())'],
+         theories=['word', 'wordx', 'dfa', 'regexp', 'gnfa'], props=['C06', 'C19'], symbol_is_regexp=True,
+         note='the extracted regular expression denotes exactly the language of D, whatever order the states are eliminated in (contracts of dfa_to_gnfa and gnfa_minimize)')
